@@ -47,7 +47,7 @@ func updateNetmapState(ctx, key, state)
   ensures notifs == old(notifs)
 
 func updateCandidateState(ctx, publicKey, state)
-  nofault given state == 2 || ((state == 1 || state == 3) && present(store, publicKey))
+  nofault given len(publicKey) == 33 && (state == 2 || ((state == 1 || state == 3) && present(store, publicKey)))
   ensures [C07] state == 1 || state == 2 || state == 3
   ensures [C07] state == 2 ==> !store.has(ckey(publicKey)) && !store.has(c2key(publicKey))
   ensures [C07] state != 2 ==> (old(store).has(ckey(publicKey)) || old(store).has(c2key(publicKey)))
@@ -76,7 +76,7 @@ func UpdateState(state, publicKey)
   ensures [C07] notifs == old(notifs) ++ [UpdateStateSuccess(publicKey, state)]
 
 func UpdateStateIR(state, publicKey)
-  nofault given W(alphabet()) && (state == 2 || ((state == 1 || state == 3) && present(store, publicKey)))
+  nofault given len(publicKey) == 33 && W(alphabet()) && (state == 2 || ((state == 1 || state == 3) && present(store, publicKey)))
   ensures [C07] W(alphabet())
   ensures [C07] state == 1 || state == 2 || state == 3
   ensures [C07] state == 2 ==> !store.has(ckey(publicKey)) && !store.has(c2key(publicKey))
